@@ -89,9 +89,12 @@ def _do_cmd(command, timeout, **kwargs):
             os.killpg(os.getpgid(proc.pid), signal.SIGKILL)
             proc.communicate()
             LOG.debug("[%s] {timed out}", kwargs.get('cwd', os.getcwd()))
+            # 'from None': the TimeoutExpired cause carries the unmasked
+            # command line and would be logged with the traceback
             raise CommandError(
-                "Command %s timed out." % mask_pwd(command)) from err
+                "Command %s timed out." % mask_pwd(command)) from None
         except CommandError:
             raise
         except Exception as err:
-            raise CommandError(mask_pwd(str(err))) from err
+            # 'from None': do not chain the unmasked original exception
+            raise CommandError(mask_pwd(str(err))) from None
